@@ -656,21 +656,15 @@ theorem typedAttrs_plain (s : Schema) (h : NoAttrDefaults s) (a : Ann) (ats : Li
   intro x _
   rfl
 
-/-- **Selection type erasure** — PARTIAL (known findings F20b, F20d).
-Full statement: "for every path expression without type tests and value comparisons, evaluation with
-a schema-bound parser on the schema-typed tree selects exactly the nodes that schema-less evaluation
-selects on the plain tree".  It is false on the pinned tree in two ways (`selection_fails_star_root`,
-`selection_fails_default_attribute`); it holds for every schema without attribute value
-constraints, every tree, every expression of the path language `E` (child / descendant /
-descendant-or-self / self / attribute / parent / ancestor / following-sibling / preceding-sibling
-steps, names, `*`, `node()`, positional, existence, count, boolean predicates) — unless the tree is passed as an element (`dummyDoc`) and the expression
-applies an abbreviated `*` step to the document node (`starAtDoc`). -/
-theorem selection_type_erasure_partial (s : Schema) (hd : NoAttrDefaults s) (t : Forest Unit)
+/-- core of the erasure proof: a typed configuration whose attribute lists ignore the annotation -/
+theorem erasure_core (s : Schema) (ao : Ann → List (String × String) → List (String × String × Nat))
+    (hao : ∀ a ats, ao a ats = plainAttrs ats) (t : Forest Unit)
     (ht : t ≠ .nil) (dummyDoc : Bool) (e : E) (hb : (dummyDoc && starAtDoc false e) = false) :
-    select (Cfg.typed s dummyDoc) (!dummyDoc) (applySchema s t) e = select (Cfg.plain dummyDoc) (!dummyDoc) t e := by
+    select (⟨dummyDoc, dummyDoc, ao⟩ : Cfg Ann) (!dummyDoc) (applySchema s t) e =
+      select (Cfg.plain dummyDoc) (!dummyDoc) t e := by
   -- step 1: the dropRoot flag is irrelevant for this expression
-  have h1 : select (Cfg.typed s dummyDoc) (!dummyDoc) (applySchema s t) e =
-      select ((Cfg.typed s dummyDoc).withDrop false) (!dummyDoc) (applySchema s t) e := by
+  have h1 : select (⟨dummyDoc, dummyDoc, ao⟩ : Cfg Ann) (!dummyDoc) (applySchema s t) e =
+      select ((⟨dummyDoc, dummyDoc, ao⟩ : Cfg Ann).withDrop false) (!dummyDoc) (applySchema s t) e := by
     cases dummyDoc with
     | false => rfl
     | true =>
@@ -696,17 +690,75 @@ theorem selection_type_erasure_partial (s : Schema) (hd : NoAttrDefaults s) (t :
           have := sibs_noDoc _ 0 x (by rw [hs]; exact List.mem_cons_self)
           simp only at h
           rw [this] at h; cases h
-      have := (eval_withDrop (Cfg.typed s true) rfl (.doc (applySchema s t)) e false
+      have := (eval_withDrop (⟨true, true, ao⟩ : Cfg Ann) rfl (.doc (applySchema s t)) e false
         (startItem (!true) (applySchema s t)) 1 1 hstart hb).1
-      show sortIdx (List.filterMap Item.idx? (eval ((Cfg.typed s true).withDrop true) _ e _ 1 1).1) = _
+      show sortIdx (List.filterMap Item.idx? (eval ((⟨true, true, ao⟩ : Cfg Ann).withDrop true) _ e _ 1 1).1) = _
       rw [this]
   -- step 2: relabelling by `erase`
-  have hag : Agree (fun _ : Ann => ()) ((Cfg.typed s dummyDoc).withDrop false) (Cfg.plain dummyDoc) :=
-    ⟨rfl, rfl, fun a ats => (typedAttrs_plain s hd a ats).symm⟩
+  have hag : Agree (fun _ : Ann => ()) ((⟨dummyDoc, dummyDoc, ao⟩ : Cfg Ann).withDrop false) (Cfg.plain dummyDoc) :=
+    ⟨rfl, rfl, fun a ats => (hao a ats).symm⟩
   rw [h1, ← select_map hag (!dummyDoc) (applySchema s t) e]
   have := apply_schema_keeps_tree s t
   unfold Forest.erase at this
   rw [this]
+
+/-- **Selection type erasure** — PARTIAL (known findings F20b, F20d).
+Full statement: "for every path expression without type tests and value comparisons, evaluation with
+a schema-bound parser on the schema-typed tree selects exactly the nodes that schema-less evaluation
+selects on the plain tree".  It is false on the real code in two ways (`selection_fails_star_root`,
+`selection_fails_default_attribute`); it holds for every schema without attribute value
+constraints, every tree, every expression of the path language `E`, i.e. EXACTLY these forms:
+* steps on the axes child, descendant, descendant-or-self, self, attribute, parent (`..`), ancestor,
+  following-sibling, preceding-sibling, with a name test, `*`, `node()` or `schema-element(N)`;
+* predicates: `[n]`, `[last()]`, `[position() <= n]`, existence `[path]` (so `[a]`, `[@x]`, `[..]`),
+  `[count(path) > n]`, and `not` / `and` / `or` over these, nested to any depth, up to two per step —
+unless the tree is passed as an element (`dummyDoc`) and the expression applies an abbreviated `*`
+step to the document node (`starAtDoc`).  Predicates that READ a node's value do not erase
+(`value_comparison_does_not_erase`). -/
+theorem selection_type_erasure_partial (s : Schema) (hd : NoAttrDefaults s) (t : Forest Unit)
+    (ht : t ≠ .nil) (dummyDoc : Bool) (e : E) (hb : (dummyDoc && starAtDoc false e) = false) :
+    select (Cfg.typed s dummyDoc) (!dummyDoc) (applySchema s t) e = select (Cfg.plain dummyDoc) (!dummyDoc) t e :=
+  erasure_core s (typedAttrs s) (typedAttrs_plain s hd) t ht dummyDoc e hb
+
+/-- **… and for EVERY schema, attribute value constraints included (the F20d hypothesis dropped)**, the
+same holds for the expressions that use neither the attribute axis nor an upward / sideways axis
+(`usesAttrOrUp e = false`: child, descendant, descendant-or-self and self steps with all the
+predicate forms above over such steps): defaulted attribute nodes are reachable through the
+attribute axis only, so they cannot change what these expressions select. -/
+theorem selection_type_erasure_defaults_partial (s : Schema) (t : Forest Unit) (ht : t ≠ .nil)
+    (dummyDoc : Bool) (e : E) (hu : usesAttrOrUp e = false)
+    (hb : (dummyDoc && starAtDoc false e) = false) :
+    select (Cfg.typed s dummyDoc) (!dummyDoc) (applySchema s t) e = select (Cfg.plain dummyDoc) (!dummyDoc) t e := by
+  rw [select_attrs_irrelevant (Cfg.typed s dummyDoc) (⟨dummyDoc, dummyDoc, fun _ ats => plainAttrs ats⟩ : Cfg Ann)
+    rfl (!dummyDoc) (applySchema s t) e hu]
+  exact erasure_core s (fun _ ats => plainAttrs ats) (fun _ _ => rfl) t ht dummyDoc e hb
+
+/-- the hypothesis `usesAttrOrUp e = false` of `selection_type_erasure_defaults_partial` is needed:
+see `selection_fails_default_attribute` (`//*[@d]` under a schema with a defaulted attribute).
+TEST: its hypotheses are satisfiable under a schema WITH a defaulted attribute -/
+example :
+    let s : Schema := { ctypes := [⟨none, .elementOnly, [.elem ⟨"a", .simple (.builtin .int), false, none⟩ []],
+                                    [⟨"d", .builtin .int, some "3"⟩]⟩],
+                        elements := [⟨"r", .complex 0, false, none⟩], types := [] }
+    let t : Forest Unit := .elem () "r" [] .absent (.elem () "a" [] .absent (.leaf .text "1" .nil) .nil) .nil
+    let e : E := .step (.step .root .descOrSelf .node .ptrue .ptrue) .child (.name "a") (.pos 1) .ptrue
+    usesAttrOrUp e = false ∧ select (Cfg.typed s true) false (applySchema s t) e = [1] ∧
+    select (Cfg.plain true) false t e = [1] := by decide
+
+/-- **a predicate that reads the typed value does NOT erase** (why value comparisons are outside `E`):
+`//*[. = 'a b']` on `<k> a  b </k>` with `k : xs:token` selects `k` under the schema (typed value
+`a b`, white space collapsed) and nothing without it (string value ` a  b `).  (On a tree whose
+root has element-only content the same expression RAISES under the schema — FOTY0012 — and answers
+without it: `selectValEq … = none`.) -/
+theorem value_comparison_does_not_erase :
+    let s : Schema := { ctypes := [⟨none, .elementOnly, [.elem ⟨"k", .simple (.builtin .token), false, none⟩ []], []⟩],
+                        elements := [⟨"k", .simple (.builtin .token), false, none⟩, ⟨"r", .complex 0, false, none⟩], types := [] }
+    let t : Forest Unit := .elem () "k" [] .absent (.leaf .text " a  b " .nil) .nil
+    let t2 : Forest Unit := .elem () "r" [] .absent t .nil
+    selectValEq isValid s "a b" 0 (applySchema s t) = some [0] ∧
+    selectValEq isValid s "a b" 0 (clearF t) = some [] ∧
+    selectValEq isValid s "a b" 0 (applySchema s t2) = none ∧
+    selectValEq isValid s "a b" 0 (clearF t2) = some [] := by decide
 
 /-- corollary: when the tree is passed as a document (no dummy document node), the schema never
 changes the selection of any expression of `E` (schemas without attribute value constraints) -/
